@@ -23,11 +23,19 @@ open Alpaqa.C20 Alpaqa.Gen.C20
 /-! ## Known deviations of the tree (each one an open finding, see checks/c20.py)
 
   Findings F1–F7 of the first run have been repaired in /repo (patches under /verif/fixes); the
-  theorems below state the repaired behaviour without exclusions.  One finding is still open. -/
+  theorems below state the repaired behaviour without exclusions.  Two findings are still open
+  (F8, F9).  Coverage of the tables (nothing deleted / duplicated) and the restatement of
+  `flags_truthful` against the generated tables are in `Props/C20_Coverage.lean`. -/
 
 /-- F8: `DLControlProblem` declares neither `eval_proj_diff_g` nor `eval_proj_multipliers`, which
     `ControlProblemVTable` requires, and the C ABI has no members for them. -/
 def knownDeviations.dlMissingRequired : List String := ["eval_proj_diff_g", "eval_proj_multipliers"]
+
+/-- F9 (open): `DLControlProblem` forwards the optional vtable entries `eval_h` / `eval_h_N` to the
+    table members of the same name but has no `provides_eval_h` / `provides_eval_h_N`: a plug-in
+    that leaves them null is reported as providing them, and calling them jumps through the null
+    pointer (reproduced on the real code by `checks/c20.py`, key C20-F9). -/
+def knownDeviations.dlNoProvides : List String := ["eval_h", "eval_h_N"]
 
 /-! ## 1. `forward_transparent`: table theorems -/
 
@@ -151,11 +159,17 @@ theorem dl_provides_tests_called :
   decide
 
 /-- every optional vtable entry that the loader forwards unguarded has a `provides_` test, so the
-    type-erased layer never calls a null table member of an *optional* function -/
+    type-erased layer never calls a null table member of an *optional* function — except the
+    entries in `knownDeviations.dlNoProvides` (F9, open).  Required / optional is read off the
+    generated vtable tables.  (`dl_optional_linked` in `Props/C20_Coverage.lean` sharpens this:
+    the test is on the very member that is called.) -/
 theorem dl_optional_guarded :
-    dlNLP.fwd.all (fun e => e.guarded || nlpRequired.contains e.method ||
+    dlNLP.fwd.all (fun e => e.guarded ||
+      (match nlpTE.find e.method with | some v => v.required | none => false) ||
       dlNLP.prov.any (·.method == e.method)) = true ∧
-    dlOCP.fwd.all (fun e => ocpRequired.contains e.method || ["eval_h", "eval_h_N"].contains e.method ||
+    dlOCP.fwd.all (fun e =>
+      (match ocpTE.find e.method with | some v => v.required | none => false) ||
+      knownDeviations.dlNoProvides.contains e.method ||
       dlOCP.prov.any (·.method == e.method)) = true := by decide
 
 /-- every function pointer of the C-ABI tables defaults to `nullptr` (so "omitted" is well-defined) -/
